@@ -179,6 +179,32 @@ pub fn run_c16<C: NatCtx>(v: &mut Env<C>) {
     }
 }
 
+/// FIPS 186-4 A.2.3 style derivation of the generator with 1-based `index`, independent of the library's
+/// back-end code (only its SHA-512 instance is shared)
+fn ref_generator(seed: &[u8], index: u64, little_endian: bool, p: &BigUint, q: &BigUint) -> BigUint {
+    use sha2_via_strand::*;
+    let cofactor = (p - 1u32) / q;
+    let mut next = seed.to_vec();
+    next.extend(b"ggen");
+    let mut count: u64 = 0;
+    loop {
+        count += 1;
+        next.extend(index.to_le_bytes());
+        next.extend(count.to_le_bytes());
+        let digest = sha512(&next);
+        let e = if little_endian { BigUint::from_bytes_le(&digest) } else { BigUint::from_bytes_be(&digest) } % p;
+        let gg = e.modpow(&cofactor, p);
+        if gg >= big(2) || count > 300 {
+            return gg;
+        }
+    }
+}
+mod sha2_via_strand {
+    pub fn sha512(bytes: &[u8]) -> Vec<u8> {
+        strand::util::hash(bytes)
+    }
+}
+
 pub fn run_c17<C: NatCtx>(v: &mut Env<C>) {
     let quick = v.h.tier == Tier::Quick;
     let (p, q, g) = (v.p.clone(), v.q.clone(), v.g.clone());
@@ -218,7 +244,13 @@ pub fn run_c17<C: NatCtx>(v: &mut Env<C>) {
                 v.h.check(d.len() == gs.len(), || format!("derived generators are not pairwise distinct on {}", tok));
                 v.h.check(!gs.contains(&g), || format!("a derived generator equals the standard generator on {}", tok));
             }
+            // the documented derivation recomputed for EVERY generator (SHA-512 through util::hasher, integer
+            // arithmetic in the harness): seed || "ggen" || (index_le8 || count_le8)+ -> integer mod p -> ^cofactor
             if gs.len() > longest.len() {
+                for (i, x) in gs.iter().enumerate().skip(longest.len()) {
+                    let want = ref_generator(seed, i as u64 + 1, C::kind() == 'B', &p, &q);
+                    v.h.check(*x == want, || format!("generator {} of generators({}, seed {:02x?}) is {:x}, the documented derivation gives {:x} on {}", i + 1, size, &seed[..seed.len().min(8)], x, want, tok));
+                }
                 longest = gs;
             }
         }
